@@ -261,7 +261,7 @@ Proof.
     try (apply Opt; intros s' E;
          first [solve [eapply SameMb_insert; exact E] | solve [eapply SameMb_uidcopy; exact E]
                | solve [eapply SameMb_copy; exact E]
-               | solve [eapply SameMb_trans; [apply SameMb_set_next|eapply SameMb_reparent; exact E]]]);
+               | solve [unfold reparent_max in E; eapply SameMb_trans; [apply SameMb_set_next|eapply SameMb_reparent; exact E]]]);
     try (cbn [d_st with_st with_msgs];
          first [exact Mb | apply Same, SameMb_bump | apply Same, SameMb_uidstore_one | apply Same, SameMb_delete]).
   all: try (unfold store_message; cbn; exact Mb).
@@ -358,7 +358,7 @@ Proof.
     + now rewrite Ei.
     + right. unfold HasI. cbn [d_st with_st]. apply in_map_iff. exists m0. auto.
     + intros _. apply in_map_iff. exists m0. auto.
-  - apply Opt. intros s' E. eapply SameMb_trans; [apply SameMb_set_next|eapply SameMb_reparent; eauto].
+  - apply Opt. intros s' E. unfold reparent_max in E. eapply SameMb_trans; [apply SameMb_set_next|eapply SameMb_reparent; eauto].
   - destruct (existsb _ _); [exact Self|apply Keep; reflexivity].
   - apply Keep. reflexivity.
 Qed.
